@@ -288,7 +288,7 @@ func c14evalOut(src string) string {
 
 func c14run(r *report.Run) {
 	thorough := r.Tier == "thorough"
-	r.Rule("scalars: bool, all 256 int8/uint8, 32-bit boundary sets, ~5k floats (4 mantissas x 10^-330..10^310, both signs, +-0, Inf, NaN, max, denormal, neighbours of the %v thresholds), strings; containers: every value of depth <=3 over 5 typed leaf pairs built from slices (nil, empty, 1, 2 elements) and nil/empty/single-entry maps of 4 key kinds, linear chains to depth 5; Println with 1..4 operands of every kind combination; struct references with 0..4 scalar fields; each through Value.String, println, fmt.Println, fmt.Print, fmt.Sprint; values with a past (maps of four key kinds emptied to 0 or 1 entry by every order of deletes, on their own / in a slice / as a struct field; re-sliced and appended slices; struct types declared again); cyclic graphs on <=3 nodes printed in child processes; non-trivial = distinct rendered value other than a plain small integer")
+	r.Rule("scalars: bool, all 256 int8/uint8, 32-bit boundary sets, ~5k floats (4 mantissas x 10^-330..10^310, both signs, +-0, Inf, NaN, max, denormal, neighbours of the %v thresholds), strings; containers: every value of depth <=3 over 5 typed leaf pairs built from slices (nil, empty, 1, 2 elements) and nil/empty/single-entry maps of 4 key kinds, linear chains to depth 5, every slice/map chain of depth 4 and 5 that fits the type encoding; Println with 1..4 operands of every kind combination; struct references with 0..4 scalar fields; each through Value.String, println, fmt.Println, fmt.Print, fmt.Sprint; values with a past (maps of four key kinds emptied to 0 or 1 entry by every order of deletes, on their own / in a slice / as a struct field; re-sliced and appended slices; struct types declared again); cyclic graphs on <=3 nodes printed in child processes; non-trivial = distinct rendered value other than a plain small integer")
 	r.Assume("fmt.Sprint / Sprintln / %+v on the equivalent native value is the oracle; `println` is judged on goatlang's own terms (same text as fmt.Println on stdout)", "multi-entry maps are excluded (iteration order), as in the property")
 	// ---- scalars through a host value bound to a global
 	type sc struct {
@@ -366,6 +366,30 @@ func c14run(r *report.Run) {
 		chain = pick
 		if d > depth {
 			conts = append(conts, pick...)
+		}
+	}
+	// every chain of depth 4 and 5 over {one-element slice, single-entry string-keyed map} whose type fits goatlang's type
+	// encoding (one byte per slice level, two per map level, one for the leaf, eight in all; the types beyond that are the
+	// open finding C14-map-depth-4)
+	for d := 4; d <= 5; d++ {
+		for mask := 0; mask < 1<<d; mask++ {
+			maps := 0
+			for b := 0; b < d; b++ {
+				maps += mask >> b & 1
+			}
+			if d+maps+1 > 8 {
+				continue
+			}
+			cur := c14leaves()["int"][:1]
+			for b := 0; b < d; b++ {
+				w := c14wrap(cur, false)
+				if mask>>b&1 == 1 {
+					cur = w[1][2:3]
+				} else {
+					cur = w[0][2:3]
+				}
+			}
+			conts = append(conts, cur...)
 		}
 	}
 	r.Set("container_values", len(conts))
